@@ -120,7 +120,9 @@ def outsidePair (env : Env V) (lim : Option V) (v : V) : Bool :=
 /-- `LimitsType.validate`: `limits[1] < limits[0]` -/
 def pairInverted (env : Env V) (v : V) : Bool := env.lt (env.split v).2 (env.split v).1
 
-/-- `Module.checkLimits(value, pname)`: `<p>_limits` AND `<p>_min` AND `<p>_max` all apply -/
+/-- `Module.checkLimits(value, pname)`: `<p>_limits` AND `<p>_min` AND `<p>_max` all apply.  A limit parameter the module
+does not have — never declared, or removed by a subclass (`<p>_max = None`; repaired tree ff071c8: before, the `None` left
+in the class made the comparison raise TypeError) — does not restrict -/
 def checkLimits (env : Env V) (mod : Module J V) (attr : String) (v : V) : CheckRes :=
   if outsidePair env (attrValue mod (attr ++ "_limits")) v then .raise (mkErr .rangeError)
   else
